@@ -10,12 +10,12 @@ TRUSTED = ["F2PY wrapper blocks pass arrays of exactly the declared shapes; the 
            "division by zero, shift, float-to-int range, uninitialised read, output definedness; float division by zero and sqrt/asin domain "
            "are NOT in this class (IEEE inf/nan are not rejected by the sanitizers)"]
 ASSUMPTIONS = ["image sizes within the stated bounds (ns*nf <= 2^28 for the labelling kernels, <= INT_MAX elsewhere)"]
-NOT_YET = ["connectedpixels.c:bloboverlaps", "sparse_image.c (13 kernels)", "localmaxlabel.c (2)", "darkflat.c (14)", "splat.c (1)", "cimaged11utils.c (2)"]
+NOT_YET = ["connectedpixels.c:bloboverlaps", "sparse_image.c: mask_to_coo, compress_duplicates, sparse_connectedpixels, sparse_connectedpixels_splat, sparse_smooth, sparse_localmaxlabel", "localmaxlabel.c (2)", "darkflat.c (14)", "splat.c (1)", "cimaged11utils.c (2)"]
 EXPLANATION = ("every function listed under functions_under_contract is verified in safety mode: functional (tagged) clauses are neither assumed nor "
                "checked, so this verdict depends only on the structural contract. Kernels not yet under contract (NOT part of this claim): "
                + "; ".join(NOT_YET))
 
-SAFE_FILES = ("closest.c", "cdiffraction.c", "blobs.c", "connectedpixels.c")
+SAFE_FILES = ("closest.c", "cdiffraction.c", "blobs.c", "connectedpixels.c", "sparse_image.c")
 
 
 def units(ctx):
